@@ -557,6 +557,7 @@ class MarkovNetwork(UndirectedGraph):
         # potential or not
         # If false, then it is not used to create any clique potential
         is_used = {factor: False for factor in self.factors}
+        state_names = self.states
 
         for node in clique_trees.nodes():
             clique_factors = []
@@ -571,7 +572,13 @@ class MarkovNetwork(UndirectedGraph):
             # To compute clique potential, initially set it as unity factor
             var_card = [self.get_cardinality()[x] for x in node]
             clique_potential = DiscreteFactor(
-                node, var_card, np.ones(np.prod(var_card))
+                node,
+                var_card,
+                np.ones(np.prod(var_card)),
+                state_names={
+                    var: state_names.get(var, list(range(card)))
+                    for var, card in zip(node, var_card)
+                },
             )
             # multiply it with the factors associated with the variables present
             # in the clique (or node)
